@@ -150,7 +150,7 @@ func (s *server) handleLFS(w http.ResponseWriter, r *http.Request) {
 	}
 	s.record(tag, line+extra)
 
-	if strings.HasSuffix(role, "-auth") && !auth {
+	if strings.HasSuffix(role, "-auth") && !auth && !strings.HasPrefix(rest, "store/") { // API needs credentials; action hrefs are pre-authenticated
 		w.Header().Set("Www-Authenticate", `Basic realm="verif"`)
 		w.Header().Set("Lfs-Authenticate", `Basic realm="verif"`)
 		w.Header().Set("Content-Type", "application/vnd.git-lfs+json")
